@@ -20,6 +20,11 @@ def rectCmds (x y w h rx ry : α) : List (Cmd α) :=
     (if 0 < rx then [arc x (y + h - ry)] else []) ++ [('V', [y + ry])] ++
     (if 0 < rx then [arc (x + rx) y] else []) ++ [('Z', [])]
 
+/-- `from_element` for a rect: the dataclass reads a zero radius as "copy the other one"; when both attributes are given
+    and one of them is zero, both fields are set to zero first -/
+def explicitZeroRadii (givenRx givenRy : Bool) (rx ry : α) : α × α :=
+  if givenRx && givenRy && (rx == 0 || ry == 0) then (0, 0) else (rx, ry)
+
 /-- `SVGEllipse.as_path()` / `SVGCircle.as_path()` -/
 def ellipseCmds (rx ry cx cy : α) : List (Cmd α) :=
   [('M', [cx + rx, cy]), ('A', [rx, ry, 0, 1, 1, cx - rx, cy]), ('A', [rx, ry, 0, 1, 1, cx + rx, cy]), ('Z', [])]
